@@ -362,6 +362,35 @@ def stack_corpus():
     return out
 
 
+def hash_pair_corpus():
+    """two reads of memory (hash/hash, hash/load, load/load) with equal and different offsets and lengths, constant and symbolic, with
+    and without a store in between: reads may be unified only when they read the same bytes of the same memory"""
+    out = []
+    lens = [0x20, 0x40, 0x1, 0x21]
+    offs = [0x0, 0x20, 0x1]
+    for o1 in offs:
+        for l1 in lens:
+            for o2 in offs:
+                for l2 in lens:
+                    if (o1, l1) <= (o2, l2):
+                        out.append("%s %s KECCAK256 %s %s KECCAK256" % (push(l1), push(o1), push(l2), push(o2)))
+    out += ["DUP1 DUP3 KECCAK256 SWAP2 SWAP1 PUSH1 0x20 ADD SWAP1 KECCAK256", "DUP2 DUP2 KECCAK256 DUP3 DUP3 KECCAK256", "DUP2 DUP2 KECCAK256 DUP3 DUP3 PUSH1 0x1 ADD KECCAK256",
+            "DUP2 DUP2 KECCAK256 PUSH1 0x7 DUP3 MSTORE DUP3 DUP3 KECCAK256", "PUSH1 0x20 PUSH1 0x0 KECCAK256 PUSH1 0x0 MLOAD", "PUSH1 0x0 MLOAD PUSH1 0x0 MLOAD",
+            "PUSH1 0x0 MLOAD PUSH1 0x1 MLOAD", "DUP1 MLOAD DUP2 MLOAD", "DUP1 MLOAD PUSH1 0x5 DUP3 MSTORE DUP2 MLOAD", "DUP1 SLOAD DUP2 SLOAD", "DUP1 SLOAD PUSH1 0x5 DUP3 SSTORE DUP2 SLOAD",
+            "DUP1 SLOAD DUP3 SLOAD"]
+    return out
+
+
+def size_fold_corpus():
+    """constant expressions whose value needs more bytes than the expression (or exactly as many): in size mode the fold must not enlarge
+    the code; values with an odd number of hexadecimal digits and with leading zero bytes included"""
+    out = []
+    for a in (0x10, 0x100, 0x1000, 0xfff, 0x100000, 0xffff, 0x10000, 0x1000000, 0x7fffffff):
+        out += ["PUSH %x DUP1 MUL" % a, "PUSH %x PUSH %x MUL" % (a, a), "PUSH %x PUSH1 0x8 SHL" % a, "PUSH1 0x3 PUSH %x EXP" % a, "PUSH %x PUSH %x ADD" % (a, a),
+                "PUSH %x NOT" % a, "PUSH %x PUSH1 0x1 SUB" % a]
+    return out
+
+
 def discount_corpus():
     """a simplification (constant folding with equal and with different operands, an algebraic rule) whose result is used more than once
     and has to be shuffled afterwards: the length bound is discounted per simplification and must stay above the shortest program"""
